@@ -216,6 +216,18 @@ func C15(c *fw.Ctx) {
 		}
 	}
 	strs = append(strs, "", " ", "a\nb", "\n", "line1\nline2\n", "é", "é", "ো", "ো", "ড়", "ড়", "য়", "য়", "tab\there", "[1 2]", "<nil>", "map[k:v]", "  padded  ", "0", "-0", "1e6")
+	// every printable ASCII character alone, and % (special to message formatting) before and after every
+	// letter and digit, doubled, trailing, leading
+	for r := rune(0x20); r <= 0x7e; r++ {
+		if r == '"' {
+			continue
+		}
+		strs = append(strs, string(r))
+		if (r >= 'a' && r <= 'z') || (r >= 'A' && r <= 'Z') || (r >= '0' && r <= '9') {
+			strs = append(strs, "%"+string(r), string(r)+"%", "%%"+string(r), "x%"+string(r)+"y")
+		}
+	}
+	strs = append(strs, "%", "%%", "100%", "50% off", "%d %s %v", "%!", "%[1]d", "a\\b", "\\", "a\\nb", "{}", "[line 1]")
 	c.Bound("strings", len(strs))
 	for _, s := range strs {
 		if !c.Mine() {
@@ -284,6 +296,7 @@ func C15(c *fw.Ctx) {
 			judge(c, pr, judgeOpts{SigPrefix: "shared-container"})
 		}
 	}
+	scaleStrings(c)
 	// what is shown follows the value through its history: every sequence of up to four steps (five when
 	// not quick) over {print, list keys, list values, remove a / b, add c / a, overwrite b, print inside an
 	// array} on one object, and over {print, append, remove first, store, print length, print nested} on
